@@ -138,6 +138,10 @@ def dispatch(ex, e, text, handler, recv, args, kwargs, st):
         if name.startswith("list[") or name.startswith("dict[") and not args:
             if name.startswith("list["):
                 return [Res("val", VTuple([], True), st)]
+            # dict[K, V](): a fresh empty dict
+            r = st.new_object("dict")
+            st.dict_store(r, z3.K(z3.IntSort(), z3.BoolVal(False)), z3.K(z3.IntSort(), z3.IntVal(0)))
+            return [Res("val", VRef(r, "dict", ("dict", "ref", "ref")), st)]
         if name in GLOBAL_BUILTINS:
             return GLOBAL_BUILTINS[name](ex, st, args, kwargs)
         raise Unsupported(f"call to `{text}` has no contract, inline declaration or model")
@@ -380,6 +384,9 @@ def container_method(ex, recv: VRef, name, args, kwargs, st):
                 else:
                     out.append(Res("raise", "KeyError", bs))
             return out
+        if name == "keys":
+            # d.keys(): a live view of the keys - modelled as the dict itself used as a key set
+            return [Res("val", VRef(r, "set", ("set", recv.kinds[1], None, "dictkeys")), st)]
         if name == "copy":
             nr = st.new_object("dict")
             st.dict_store(nr, st.dict_dom(r), st.dict_vals(r))
@@ -397,6 +404,12 @@ def container_method(ex, recv: VRef, name, args, kwargs, st):
                 else:
                     out.append(Res("raise", "KeyError", bs))
             return out
+        if name == "isdisjoint":
+            o = args[0]
+            if not (isinstance(o, VRef) and o.kinds and o.kinds[0] in ("set", "dict")):
+                raise Unsupported("isdisjoint with a non-set argument")
+            x = z3.Int("x!dj")
+            return [Res("val", lift_bool(z3.Not(z3.Exists([x], z3.And(z3.Select(st.dict_dom(r), x), z3.Select(st.dict_dom(o.z), x))))), st)]
         if name == "update":
             # set.update(iterable): union with the elements of a sequence
             sq = arith.as_seq(ex.to_seq_value(args[0], st))
